@@ -4,8 +4,9 @@
   All theorems are about `Model/ApiV2.lean`; the tie to /repo is the differential + the regenerated catalogue.
 -/
 import ClientGoVerif.Proofs.ApiV2
+import ClientGoVerif.Generated.CodecCatalogue
 namespace CGV.Props.C15
-open CGV CGV.Codec CGV.ApiV2 CGV.ApiV2.Lemmas
+open CGV CGV.Codec CGV.ApiV2 CGV.ApiV2.Lemmas CGV.ApiV2.Cat
 
 /-! ## round trip -/
 
@@ -358,5 +359,32 @@ theorem region_key_roundtrip (ks : Keyspace) (hv : ks.valid = true) (k s e : Byt
         | cons c cs => simp [encodeKey]
       simp only [encodeKey] at h1 h2 h3 hpre hdrop
       simp [decodeRange, h1, h2, h3, hpre, hdrop, isPrefix_append, encodeKey]
+
+/-! ## the catalogue (regenerated from the observed behaviour of /repo on every run) -/
+
+/-- exception-free statement: every command row and every key-bearing field row satisfies the rule.
+    It is the statement proved by `all_key_fields_encoded` exactly when no row is marked `known`. -/
+def all_key_fields_encoded_full : Prop :=
+  (Gen.cmdRows.all CmdRow.ok && Gen.fieldRows.all FieldRow.ok) = true
+
+/-- every `tikvrpc.CmdType` of the enum is identified, can have its context attached, yields a readable region-error
+    response of the matching type and survives batch conversion (each where required by the rule), and every
+    key-bearing field of every request / response is prefixed by `EncodeRequest` (caller's message left intact, empty
+    range end = keyspace end) / stripped by `DecodeResponse` — except exactly the rows that checks/c15.py matched
+    against a `known` entry of known_findings.json (each printed as KNOWN-FINDING and listed in the evidence). -/
+theorem all_key_fields_encoded :
+    (Gen.cmdRows.all fun c => c.ok || c.known) = true ∧ (Gen.fieldRows.all fun r => r.ok || r.known) = true := by
+  constructor <;> decide +kernel
+
+/-- a row is only ever waived while it really violates the rule (a stale known-finding entry breaks the build) -/
+theorem known_rows_violate_rule :
+    (Gen.cmdRows.all fun c => !(c.known && c.ok)) = true ∧ (Gen.fieldRows.all fun r => !(r.known && r.ok)) = true := by
+  constructor <;> decide +kernel
+
+/-- non-vacuity: the table has commands, request rows and response rows, plain and region-format ones -/
+example : Gen.cmdRows.length ≥ 40 ∧ (Gen.fieldRows.any fun r => r.side == .req && r.ok) = true
+    ∧ (Gen.fieldRows.any fun r => r.side == .resp && r.fmt == .region && r.ok) = true
+    ∧ (Gen.fieldRows.any fun r => r.side == .resp && r.fmt == .plain && r.ok) = true := by
+  refine ⟨by decide +kernel, by decide +kernel, by decide +kernel, by decide +kernel⟩
 
 end CGV.Props.C15
